@@ -1373,7 +1373,7 @@ func (x *executor) runAts(m *machine, fr *frame, in ssa.Instruction) {
 	}
 	var before *state
 	for _, at := range fr.fc.ats {
-		if fr.effStmt(at, in.Pos()) != txt || at.kind == "cut" {
+		if !stmtMatches(fr.effStmt(at, in.Pos()), txt) || at.kind == "cut" {
 			continue
 		}
 		if at.nth > 0 && x.occurrenceOf(fr.fn, in, txt) != at.nth {
@@ -1514,7 +1514,7 @@ func (x *executor) cutsAt(fr *frame, b *ssa.BasicBlock) []*atClause {
 		}
 		txt := x.sourceOf(fr.fn, in)
 		for _, at := range fr.fc.ats {
-			if at.kind == "cut" && fr.effStmt(at, in.Pos()) == txt {
+			if at.kind == "cut" && stmtMatches(fr.effStmt(at, in.Pos()), txt) {
 				dup := false
 				for _, o := range out {
 					if o == at {
@@ -2021,4 +2021,46 @@ func (fr *frame) effStmt(at *atClause, pos token.Pos) string {
 	}
 	at.eff[key{fr.fn, pos}] = out
 	return out
+}
+
+// stmtMatches: does the statement text of an `at` clause denote the source statement txt? Equal texts do; a clause
+// text without an argument list ("client.SendPoints") denotes every call of that function (robust against
+// introducing or inlining a variable among the arguments); for calls of the log package the string literals are
+// not compared (a reworded log message is still the same statement).
+func stmtMatches(want, txt string) bool {
+	if want == txt {
+		return true
+	}
+	if !strings.Contains(want, "(") {
+		return strings.HasPrefix(txt, want+"(")
+	}
+	if strings.HasPrefix(want, "log.") && strings.HasPrefix(txt, "log.") {
+		return blankStrings(want) == blankStrings(txt)
+	}
+	return false
+}
+
+// blankStrings replaces the contents of interpreted string literals by nothing
+func blankStrings(s string) string {
+	var sb strings.Builder
+	in := false
+	for i := 0; i < len(s); i++ {
+		c := s[i]
+		if in {
+			if c == '\\' && i+1 < len(s) {
+				i++
+				continue
+			}
+			if c == '"' {
+				in = false
+				sb.WriteByte(c)
+			}
+			continue
+		}
+		if c == '"' {
+			in = true
+		}
+		sb.WriteByte(c)
+	}
+	return sb.String()
 }
